@@ -220,4 +220,12 @@ theorem strictLoop_shape (parseKV : Bytes → Option Bytes) (wf : Bytes) : ∀ (
       · simp at h
     · simp at h
 
+/-! ## the LogEventIterator keeps nothing across calls -/
+
+theorem leiGet_fresh (h : Generated.C01.leiKeepsNoEventAcrossCalls = true) (maxRec : Nat) (store : List Bytes) (l : Nat) :
+    (leiGet maxRec store l {}).1 = {} := by
+  unfold leiGet
+  simp only [h, ↓reduceIte]
+  split <;> rfl
+
 end Logrange.E2E
